@@ -116,7 +116,7 @@ func encode(in reflect.Value) (any, error) {
 			bytes := in.Interface().([]byte)
 			return b64.EncodeToString(bytes), nil
 		}
-		ret := make([]any, typ.Len())
+		ret := make([]any, in.Len())
 		for i := range ret {
 			v, err := encode(in.Index(i))
 			if err != nil {
